@@ -7,6 +7,7 @@ import (
 	"sort"
 	"strings"
 	"testing"
+	"time"
 
 	"github.com/smarthome-go/homescript/v3/homescript/runtime"
 	"github.com/smarthome-go/homescript/v3/homescript/runtime/value"
@@ -413,6 +414,10 @@ func runC17(t *testing.T, spec RunSpec) *Verdict {
 			env.ctx.OnCancel = func() {}
 		}
 		env.vm.SpawnAsync(runtime.MainFn(), nil, nil, nil)
+		if d := spec.P("wait_delay_ms", 0); d > 0 {
+			// the host does something else before it waits: the program may be over by then
+			simrt.SleepFor(time.Duration(d) * time.Millisecond)
+		}
 		s.SetDeadline("wait-returns", 3600e9)
 		if m.handshake {
 			// every spawned function runs to completion: a core that spins on a value another
@@ -567,6 +572,10 @@ func planC17(t *testing.T, tier string, seed uint64) ([]RunSpec, error) {
 				}
 				for k := 0; k < perCell; k++ {
 					s := base.clone()
+					if k%6 == 5 {
+						// a host that does other work between starting the program and waiting for it
+						s.Params["wait_delay_ms"] = []int{1, 5, 40}[(k/6)%3]
+					}
 					s.Sim = swarm(seed, idx)
 					s.Seed = runSeed(seed, idx)
 					idx++
